@@ -27,7 +27,7 @@ import ast
 from ..cfg import CFG
 from ..exctypes import ExcTypes
 from ..facts import TOP, const_of
-from ..model import Program, call_name, norm, expand_locals, single_assignment_locals
+from ..model import Program, call_name, execution_condition, norm, expand_locals, single_assignment_locals
 from ..poly import Rat, eval_expr
 from ..report import AnalysisError
 from ..symexec import SymEnv
@@ -393,6 +393,42 @@ def rule_r12(rep, program: Program):
                     r.violate(PROP, f"{f.qualname}:subtree-used-without-flag-test:{flag}", f"the sub-tree / proposal returned by _build_tree is used although no test of the returned termination flag `{flag}` leaves first (tests that follow: {tests}): _build_tree also reports termination together with a complete sub-tree (U-turn inside it), which is then merged and sampled from - moves into such a sub-tree have no reverse move, the transition is not invariant", node=st, file=f.file)
                 elif early:
                     r.violate(PROP, f"{f.qualname}:subtree-used-before-flag-test:{early[0][1]}", f"`{early[0][1]}` of the new sub-tree is used before the termination flag `{flag}` is tested", node=early[0][0], file=f.file)
+    return r
+
+
+def rule_r13(rep, program: Program):
+    """The merged tree is tested against the termination criterion after every doubling, whatever its depth: the same
+    pair of states is tested (and discarded) when it is built as a sub-tree from a start state outside it, so a
+    level-dependent exemption makes reachability depend on the start state - no reverse move."""
+    r = rep.rule("R13", "after every merge in the doubling loop the termination criterion decides alone whether the loop stops (no depth-dependent exemption)", floor=1)
+    f = program.cls("DynamicIntegrationTransition").methods["sample"]
+    loops = [n for n in ast.walk(f.node) if isinstance(n, ast.For) and any(isinstance(c, ast.Call) and norm(c.func) == "self._build_tree" for c in ast.walk(n))]
+    if len(loops) != 1:
+        raise AnalysisError("DynamicIntegrationTransition.sample: doubling loop not found")
+    lp = loops[0]
+    crit = [c for c in ast.walk(lp) if isinstance(c, ast.Call) and norm(c.func) == "self._termination_criterion"]
+    if not crit:
+        raise AnalysisError("DynamicIntegrationTransition.sample: termination criterion is not evaluated in the doubling loop")
+    pm = {ch: par for par in ast.walk(lp) for ch in ast.iter_child_nodes(par)}
+    for c in crit:
+        st = c
+        while st in pm and not isinstance(st, ast.stmt):
+            st = pm[st]
+        test = st.test if isinstance(st, ast.If) else (st.value if isinstance(st, ast.Assign) else None)
+        # the statement evaluating the criterion runs on every iteration that reaches the merge
+        conds = [(t, tr) for t, tr in execution_condition(f.node, st, stop_at=(ast.For,)) if not (isinstance(t, ast.Name) or (isinstance(t, ast.Compare) and isinstance(t.left, ast.Name) and norm(t.comparators[0]) == "None"))]
+        exempt = None
+        if isinstance(test, ast.BoolOp) and isinstance(test.op, ast.And):
+            others = [v for v in test.values if not any(x is c for x in ast.walk(v))]
+            if others:
+                exempt = " and ".join(norm(v) for v in others)
+        if isinstance(test, ast.IfExp):
+            exempt = norm(test.test)
+        if conds:
+            exempt = (exempt + " / " if exempt else "") + " and ".join(("" if tr else "not ") + norm(t) for t, tr in conds)
+        r.inst({"criterion evaluated in": norm(st)[:60], "additional condition": exempt})
+        if exempt:
+            r.violate(PROP, f"{f.qualname}:termination-exempt:{exempt[:40]}", f"the doubling loop stops on the termination criterion only when `{exempt}` also holds: trees for which it does not are never tested at the top level, although the same states are tested when they are built as a sub-tree from elsewhere - the set of reachable trees depends on the start state and the transition is not invariant", node=st, file=f.file)
     return r
 
 
@@ -907,3 +943,4 @@ def run(rep, program: Program, tier: str) -> None:
     rep.isolate(rule_r9, rep, program)
     rep.isolate(rule_r11, rep, program)
     rep.isolate(rule_r12, rep, program)
+    rep.isolate(rule_r13, rep, program)
